@@ -35,6 +35,9 @@ type Reg struct {
 	HasKeys    bool     `json:"has_keys"` // a public key (kid kx) is registered for X (request objects / jwt-bearer / private_key_jwt)
 	Service    bool     `json:"service"`  // the storage treats X as a service account (client_credentials)
 	Special    bool     `json:"special"`  // id and secret contain characters that need percent-encoding in a Basic header
+	// StoredSecret: the storage also holds (and accepts) a secret for a client whose registered method is private_key_jwt or none,
+	// e.g. left over from an earlier registration. Presenting it is "a credential of the wrong kind" for a private_key_jwt client.
+	StoredSecret bool `json:"stored_secret,omitempty"`
 }
 
 // Flags are the provider configuration flags and storage capabilities.
@@ -156,6 +159,9 @@ func genCase(t *rapid.T) Case {
 		r.Service = !r.Service
 	}
 	r.Special = rapid.IntRange(0, 3).Draw(t, "special") == 0
+	if r.AuthMethod == mPKJWT || r.AuthMethod == mNone {
+		r.StoredSecret = rapid.IntRange(0, 9).Draw(t, "storedsecret") < 4
+	}
 
 	c.Endpoint = rapid.SampledFrom([]string{"token", "token", "token", "token", "token", "token", "introspection", "revocation", "device_authorization"}).Draw(t, "endpoint")
 	if c.Endpoint == "token" {
@@ -167,8 +173,10 @@ func genCase(t *rapid.T) Case {
 			c.GrantAssertion = rapid.SampledFrom(grantAssertions).Draw(t, "grant.assertion")
 		}
 	}
-	if rapid.IntRange(0, 9).Draw(t, "pres.right") < 4 {
+	if pr := rapid.IntRange(0, 9).Draw(t, "pres.right"); pr < 4 {
 		c.Pres = rightPres(r.AuthMethod)
+	} else if r.StoredSecret && pr < 7 {
+		c.Pres = rapid.SampledFrom([]string{"basic-right", "post-right"}).Draw(t, "pres.storedsecret")
 	} else {
 		c.Pres = rapid.SampledFrom(presentations).Draw(t, "pres")
 	}
@@ -204,6 +212,20 @@ type authVerdict struct {
 
 // authClass: has the request authenticated the client it names in the way that client is registered?
 func authClass(c Case) authVerdict {
+	a := authClass0(c)
+	if a.reason == "secret-for-pkjwt-client" && presentsStoredSecret(c) {
+		// the secret is the one the storage accepts: only the registered method stands between the caller and the endpoint
+		a.reason = "stored-secret-for-pkjwt-client"
+	}
+	return a
+}
+
+// presentsStoredSecret: the request carries the secret the storage holds for a client whose registered method is not secret-based.
+func presentsStoredSecret(c Case) bool {
+	return c.Reg.StoredSecret && (c.Pres == "basic-right" || c.Pres == "post-right" || (c.Pres == "basic-raw" && !c.Reg.Special))
+}
+
+func authClass0(c Case) authVerdict {
 	r := c.Reg
 	m := r.AuthMethod
 	secretBased := m == mBasic || m == mPost
@@ -357,7 +379,11 @@ func judge(c Case) verdict {
 				refuse = append(refuse, "grant-unregistered")
 			}
 			if c.Grant == vkit.GCC && known && r.AuthMethod == mNone {
-				refuse = append(refuse, "cc-public-client")
+				if presentsStoredSecret(c) {
+					grey = append(grey, "cc-public-client-with-stored-secret")
+				} else {
+					refuse = append(refuse, "cc-public-client")
+				}
 			}
 			switch c.Grant {
 			case vkit.GCC:
@@ -440,8 +466,8 @@ func buildClients(c Case) (x, z *vkit.ClientSpec, guess string) {
 	id, secret := clientIDs(c.Reg)
 	x = &vkit.ClientSpec{ID: id, AppType: c.Reg.AppType, AuthMethod: c.Reg.AuthMethod, GrantTypes: c.Reg.Grants,
 		ResponseTypes: []string{"code"}, RedirectURIs: []string{redirect}, Service: c.Reg.Service}
-	// consistent registrations only: a secret is stored exactly for the secret-based methods
-	if c.Reg.AuthMethod == mBasic || c.Reg.AuthMethod == mPost {
+	// a secret is stored for the secret-based methods, and for private_key_jwt / public clients only when StoredSecret says so
+	if c.Reg.AuthMethod == mBasic || c.Reg.AuthMethod == mPost || c.Reg.StoredSecret {
 		x.Secret = secret
 	}
 	if c.Reg.HasKeys {
@@ -557,7 +583,7 @@ func primaryReason(c Case, reasons []string) string {
 			best = r
 		}
 	}
-	if rank(best) == 2 && best != "assertion-for-secret-client" && best != "unauthenticated-introspection" && best != "post-disabled" &&
+	if rank(best) == 2 && best != "assertion-for-secret-client" && best != "stored-secret-for-pkjwt-client" && best != "unauthenticated-introspection" && best != "post-disabled" &&
 		c.Reg.AppType != "web" && c.Reg.AuthMethod != mNone {
 		return "nonweb-client-unauthenticated"
 	}
@@ -784,8 +810,8 @@ func run(c Case) (res *vkit.Result) {
 	reasons := strings.Join(v.Reasons, "+")
 	cell := fmt.Sprintf("%s:%s", c.Router, w)
 	desc := func() string {
-		return fmt.Sprintf("%s %s by client{method=%s app=%s grants=%v keys=%v service=%v} presenting %q (body client_id %q, params %s, flags %+v): %s",
-			c.Router, w, c.Reg.AuthMethod, c.Reg.AppType, c.Reg.Grants, c.Reg.HasKeys, c.Reg.Service, c.Pres, c.BodyID, c.ParamsIn, c.Flags, resp.Describe())
+		return fmt.Sprintf("%s %s by client{method=%s app=%s grants=%v keys=%v service=%v stored_secret=%v} presenting %q (body client_id %q, params %s, flags %+v): %s",
+			c.Router, w, c.Reg.AuthMethod, c.Reg.AppType, c.Reg.Grants, c.Reg.HasKeys, c.Reg.Service, c.Reg.StoredSecret, c.Pres, c.BodyID, c.ParamsIn, c.Flags, resp.Describe())
 	}
 
 	if resp.Panic != nil {
@@ -884,8 +910,8 @@ func run(c Case) (res *vkit.Result) {
 	if c.Endpoint == "device_authorization" {
 		registered = has(c.Reg.Grants, vkit.GDevice)
 	}
-	res.Key = fmt.Sprintf("%s|%s|%s|web=%v|keys=%v|svc=%v|sp=%v|reg=%v|%+v|%s|%s|%s|%s|%s%s|%s|v=%d|%s", c.Router, w, c.Reg.AuthMethod, c.Reg.AppType == "web", c.Reg.HasKeys,
-		c.Reg.Service, c.Reg.Special, registered, c.Flags, c.Pres, c.BodyID, c.ParamsIn, c.GrantAssertion, c.TokenKind, c.Hint, c.Fault, v.V, reasons)
+	res.Key = fmt.Sprintf("%s|%s|%s|web=%v|keys=%v|svc=%v|sp=%v|ss=%v|reg=%v|%+v|%s|%s|%s|%s|%s%s|%s|v=%d|%s", c.Router, w, c.Reg.AuthMethod, c.Reg.AppType == "web", c.Reg.HasKeys,
+		c.Reg.Service, c.Reg.Special, c.Reg.StoredSecret, registered, c.Flags, c.Pres, c.BodyID, c.ParamsIn, c.GrantAssertion, c.TokenKind, c.Hint, c.Fault, v.V, reasons)
 	res.Info = map[string]any{"verdict": v.V, "reasons": v.Reasons, "auth": v.Auth.reason, "status": resp.Status, "error": errCode, "material": found, "acted_for": actedFor}
 	return res
 }
@@ -893,7 +919,7 @@ func run(c Case) (res *vkit.Result) {
 var prop = vkit.Prop[Case]{
 	ID: "C05",
 	Rule: "case = one cell of: client registration (auth method x application type x subset of the 7 grant types x registered key x service account x id/secret needing percent-encoding; " +
-		"a secret is stored exactly for the secret-based methods) x credential presentation (24 kinds: nothing / client_id only / Basic right, unescaped, wrong, other client's, empty, bad %-escape, " +
+		"optionally a stored secret for private_key_jwt / public clients) x credential presentation (24 kinds: nothing / client_id only / Basic right, unescaped, wrong, other client's, empty, bad %-escape, " +
 		"malformed header / POST right, wrong, other's / client assertion right, wrong type, wrong key, unknown kid, other issuer, expired, wrong audience, sub != iss / the same naming an unregistered client) " +
 		"x optional conflicting client_id form value x endpoint (token with grant_type in {6 grants, implicit, unknown, missing} / introspection / revocation / device_authorization) x parameters in body / URL / GET request " +
 		"x provider flags (post, private_key_jwt, refresh, client-credentials / token-exchange / device capability) x optional storage fault on client / secret / key lookup x router; every request carries valid grant material owned by the named client " +
